@@ -121,6 +121,7 @@ func (p *Program) runHarness(name string, fn *ssa.Function, o runOpts) *HarnessR
 	stopped := false
 	seenViol := map[string]bool{}
 
+	var spawn func()
 	worker := func() {
 		solver, err := NewSolver("z3", o.timeoutMs)
 		if err != nil {
@@ -156,6 +157,9 @@ func (p *Program) runHarness(name string, fn *ssa.Function, o runOpts) *HarnessR
 			res.Asserts += in.nAsserts
 			res.Steps += in.steps
 			queue = append(queue, in.newWork...)
+			for k := 0; k < len(queue)/2 && k < 4; k++ {
+				spawn()
+			}
 			for _, v := range in.violations {
 				k := v.label + "|" + v.known
 				if !seenViol[k] {
@@ -214,10 +218,18 @@ func (p *Program) runHarness(name string, fn *ssa.Function, o runOpts) *HarnessR
 		mu.Unlock()
 	}
 	var wg sync.WaitGroup
-	for i := 0; i < o.workers; i++ {
+	nworkers := 0
+	spawn = func() { // called with mu held (or before any worker runs)
+		if nworkers >= o.workers {
+			return
+		}
+		nworkers++
 		wg.Add(1)
 		go func() { defer wg.Done(); worker() }()
 	}
+	mu.Lock()
+	spawn()
+	mu.Unlock()
 	wg.Wait()
 	for _, d := range res.Declared {
 		if !res.Covers[d] {
